@@ -1171,3 +1171,11 @@ def data_elem(it):
     while it[0] == "call" and it[1] == "builtins.enumerate" and it[2]:
         it = it[2][0]
     return ("elem", it)
+
+
+def elem_of(it):
+    """The term a loop variable over iterable term ``it`` denotes (the
+    engine's own convention: elem(it), or the position idx(S) for
+    range(len(S)))."""
+    from .defuse import _elem_term
+    return _elem_term(it)
